@@ -322,3 +322,17 @@ func (e *Engine) nodeRequires(fn *ssa.Function) []string {
 	}
 	return out
 }
+
+
+// sentinelParam: is parameter idx of fn assumed to be "a tree node or the all-zero node astcast.NilX" (instead of "a tree
+// node")? The set is part of the committed ledger (ledger/C01.sentinel-params): it lists the parameters for which some call
+// site could not prove the strict form on the unchanged tree. Callee assumption and call-site guarantee always use the same form.
+func (e *Engine) sentinelParam(fn *ssa.Function, idx int) bool {
+	if e.sentParamSet == nil {
+		e.sentParamSet = map[string]bool{}
+		for k := range loadLedger("C01", "sentinel-params") {
+			e.sentParamSet[k] = true
+		}
+	}
+	return e.sentParamSet[fmt.Sprintf("%s#%d", funcKey(fn), idx)]
+}
